@@ -1,3 +1,5 @@
 //! Reference semantics: independent, deliberately simple evaluators of what the
 //! documentation says. Trusted base of most monitors.
 pub mod align;
+pub mod rule;
+pub mod rule_bool;
